@@ -1,6 +1,6 @@
 """C09 configuration for ./check (see checks/propcfg.py for the keys)."""
 CFG = {
-    "modules": ["VaxisModel.Props.C09", "VaxisModel.Props.C09Body", "VaxisModel.Props.C09Uni", "VaxisModel.Witness.F209", "VaxisModel.Witness.F210", "VaxisModel.Props.C09Driver", "VaxisModel.Props.C09Int64", "VaxisModel.Props.C09Sound"],
+    "modules": ["VaxisModel.Props.C09", "VaxisModel.Props.C09Body", "VaxisModel.Props.C09Uni", "VaxisModel.Witness.F209", "VaxisModel.Witness.F210", "VaxisModel.Props.C09Driver", "VaxisModel.Props.C09Int64", "VaxisModel.Props.C09Sound", "VaxisModel.Props.C09CrossUni"],
     "extractors": ["C09"],  # Gen/Keys.lean, Gen/Mouse.lean, Gen/KeyBody.lean
     "drivers": ["C09"],
     "trivial_prefix": (),
